@@ -13,6 +13,7 @@ import (
 	"fmt"
 	"sort"
 	"strings"
+	"sync"
 )
 
 type opRec struct {
@@ -35,7 +36,7 @@ func (t *opTrace) key() string {
 }
 
 type composeCE struct {
-	A, B     *opTrace
+	Traces   []*opTrace
 	Schedule []int
 	Why      string
 }
@@ -50,17 +51,23 @@ const (
 type sharedState struct {
 	lock, exists, fresh, gen, idp, refreshes *Term
 	// per thread: generation of first load, of reload, after refresh; number of loads so far
-	g1, g2, gr, loads [2]*Term
-	pc                [2]*Term
+	g1, g2, gr, loads []*Term
+	pc                []*Term
 }
 
-func composePair(s *Solver, a, b *opTrace, timeoutMs int, consistencyOnly bool) (string, *composeCE) {
-	tr := [2]*opTrace{a, b}
-	T := len(a.Ops) + len(b.Ops)
+// composeN: N requests (traces) over one shared state; the scheduler picks the
+// thread of every step.
+func composeN(s *Solver, tr []*opTrace, timeoutMs int, consistencyOnly bool) (string, *composeCE) {
+	N := len(tr)
+	T := 0
+	for _, t := range tr {
+		T += len(t.Ops)
+	}
 	v := func(n string, step int) *Term { return mkVar(fmt.Sprintf("%s_%d", n, step), SInt) }
 	st := func(step int) *sharedState {
 		x := &sharedState{lock: v("lock", step), exists: v("exists", step), fresh: v("fresh", step), gen: v("gen", step), idp: v("idp", step), refreshes: v("refr", step)}
-		for k := 0; k < 2; k++ {
+		x.g1, x.g2, x.gr, x.loads, x.pc = make([]*Term, N), make([]*Term, N), make([]*Term, N), make([]*Term, N), make([]*Term, N)
+		for k := 0; k < N; k++ {
 			x.g1[k], x.g2[k], x.gr[k], x.loads[k], x.pc[k] = v(fmt.Sprintf("g1t%d", k), step), v(fmt.Sprintf("g2t%d", k), step), v(fmt.Sprintf("grt%d", k), step), v(fmt.Sprintf("loadst%d", k), step), v(fmt.Sprintf("pct%d", k), step)
 		}
 		return x
@@ -69,21 +76,25 @@ func composePair(s *Solver, a, b *opTrace, timeoutMs int, consistencyOnly bool) 
 	s0 := st(0)
 	zero := mkInt(0)
 	cs = append(cs, mkEq(s0.lock, zero), mkEq(s0.exists, mkInt(1)), mkEq(s0.fresh, zero), mkEq(s0.gen, zero), mkEq(s0.idp, zero), mkEq(s0.refreshes, zero))
-	for k := 0; k < 2; k++ {
+	for k := 0; k < N; k++ {
 		cs = append(cs, mkEq(s0.g1[k], mkInt(-1)), mkEq(s0.g2[k], mkInt(-1)), mkEq(s0.gr[k], mkInt(-1)), mkEq(s0.loads[k], zero), mkEq(s0.pc[k], zero))
 	}
 	same := func(x, y *Term) *Term { return mkEq(x, y) }
 	for step := 0; step < T; step++ {
 		cur, nxt := st(step), st(step+1)
 		who := v("who", step)
-		cs = append(cs, mkOr(mkEq(who, zero), mkEq(who, mkInt(1))))
+		cs = append(cs, mkGe(who, zero), mkLt(who, mkInt(int64(N))))
 		var alts []*Term
-		for k := 0; k < 2; k++ {
-			o := 1 - k
+		for k := 0; k < N; k++ {
 			for p, op := range tr[k].Ops {
 				guard := []*Term{mkEq(who, mkInt(int64(k))), mkEq(cur.pc[k], mkInt(int64(p)))}
-				eff := []*Term{mkEq(nxt.pc[k], mkInt(int64(p+1))), same(nxt.pc[o], cur.pc[o]),
-					same(nxt.g1[o], cur.g1[o]), same(nxt.g2[o], cur.g2[o]), same(nxt.gr[o], cur.gr[o]), same(nxt.loads[o], cur.loads[o])}
+				eff := []*Term{mkEq(nxt.pc[k], mkInt(int64(p+1)))}
+				for o := 0; o < N; o++ {
+					if o != k {
+						eff = append(eff, same(nxt.pc[o], cur.pc[o]),
+							same(nxt.g1[o], cur.g1[o]), same(nxt.g2[o], cur.g2[o]), same(nxt.gr[o], cur.gr[o]), same(nxt.loads[o], cur.loads[o]))
+					}
+				}
 				keepShared := func(except ...string) {
 					ex := map[string]bool{}
 					for _, x := range except {
@@ -199,11 +210,13 @@ func composePair(s *Solver, a, b *opTrace, timeoutMs int, consistencyOnly bool) 
 		cs = append(cs, mkOr(alts...))
 	}
 	fin := st(T)
-	cs = append(cs, mkEq(fin.pc[0], mkInt(int64(len(a.Ops)))), mkEq(fin.pc[1], mkInt(int64(len(b.Ops)))))
+	for k := 0; k < N; k++ {
+		cs = append(cs, mkEq(fin.pc[k], mkInt(int64(len(tr[k].Ops)))))
+	}
 	// property
 	var bad []*Term
 	bad = append(bad, mkGe(fin.refreshes, mkInt(2)))
-	for k := 0; k < 2; k++ {
+	for k := 0; k < N; k++ {
 		auth := tr[k].Outcome / 10
 		src := tr[k].Outcome % 10
 		if auth == 0 {
@@ -245,7 +258,7 @@ func composePair(s *Solver, a, b *opTrace, timeoutMs int, consistencyOnly bool) 
 			ws = append(ws, v("who", step))
 		}
 		vals := s.GetValues(ws)
-		ce = &composeCE{A: a, B: b}
+		ce = &composeCE{Traces: tr}
 		for _, w := range ws {
 			n := 0
 			fmt.Sscanf(vals[w.String()], "%d", &n)
@@ -260,46 +273,91 @@ func composePair(s *Solver, a, b *opTrace, timeoutMs int, consistencyOnly bool) 
 
 type composeResult struct {
 	Traces     int          `json:"distinct_request_traces"`
-	Pairs      int          `json:"trace_pairs_composed"`
-	Unsat      int          `json:"pairs_without_violating_interleaving"`
-	Consistent int          `json:"pairs_with_a_consistent_interleaving"`
-	Unknown    int          `json:"pairs_unknown"`
+	Requests   int          `json:"max_concurrent_requests_composed"`
+	Pairs      int          `json:"trace_tuples_composed"`
+	Unsat      int          `json:"tuples_without_violating_interleaving"`
+	Consistent int          `json:"tuples_with_a_consistent_interleaving"`
+	Unknown    int          `json:"tuples_unknown"`
 	CEs        []*composeCE `json:"-"`
 	MaxLen     int          `json:"longest_trace_ops"`
 }
 
-func composeAll(traces []*opTrace, solverKind string, timeoutMs int) *composeResult {
+func composeAll(traces []*opTrace, solverKind string, timeoutMs int, maxN int) *composeResult {
 	sort.Slice(traces, func(i, j int) bool { return traces[i].key() < traces[j].key() })
-	res := &composeResult{Traces: len(traces)}
-	s, err := NewSolver(solverKind, timeoutMs)
-	if err != nil {
-		res.Unknown = 1
-		return res
-	}
-	defer s.Close()
+	res := &composeResult{Traces: len(traces), Requests: maxN}
 	for _, t := range traces {
 		if len(t.Ops) > res.MaxLen {
 			res.MaxLen = len(t.Ops)
 		}
 	}
-	for i := 0; i < len(traces); i++ {
-		for j := i; j < len(traces); j++ {
-			res.Pairs++
-			if rc, _ := composePair(s, traces[i], traces[j], timeoutMs, true); rc == "sat" {
-				res.Consistent++
-			}
-			r, ce := composePair(s, traces[i], traces[j], timeoutMs, false)
-			switch r {
-			case "unsat":
-				res.Unsat++
-			case "sat":
-				if len(res.CEs) < 4 {
-					res.CEs = append(res.CEs, ce)
-				}
-			default:
-				res.Unknown++
-			}
+	// every multiset of 2..maxN traces
+	var tuples [][]*opTrace
+	var rec func(from int, cur []*opTrace)
+	rec = func(from int, cur []*opTrace) {
+		if len(cur) >= 2 {
+			tuples = append(tuples, append([]*opTrace{}, cur...))
+		}
+		if len(cur) == maxN {
+			return
+		}
+		for i := from; i < len(traces); i++ {
+			rec(i, append(cur, traces[i]))
 		}
 	}
+	rec(0, nil)
+	res.Pairs = len(tuples)
+	var mu sync.Mutex
+	var wg sync.WaitGroup
+	next := 0
+	workers := 16
+	if len(tuples) < workers {
+		workers = len(tuples)
+	}
+	for w := 0; w < workers; w++ {
+		wg.Add(1)
+		go func() {
+			defer wg.Done()
+			s, err := NewSolver(solverKind, timeoutMs)
+			if err != nil {
+				mu.Lock()
+				res.Unknown++
+				mu.Unlock()
+				return
+			}
+			defer s.Close()
+			for {
+				mu.Lock()
+				if next >= len(tuples) {
+					mu.Unlock()
+					return
+				}
+				tuple := tuples[next]
+				next++
+				mu.Unlock()
+				rc, _ := composeN(s, tuple, timeoutMs, true)
+				r := "unsat" // no consistent interleaving at all: nothing to violate
+				var ce *composeCE
+				if rc != "unsat" {
+					r, ce = composeN(s, tuple, timeoutMs, false)
+				}
+				mu.Lock()
+				if rc == "sat" {
+					res.Consistent++
+				}
+				switch r {
+				case "unsat":
+					res.Unsat++
+				case "sat":
+					if len(res.CEs) < 4 {
+						res.CEs = append(res.CEs, ce)
+					}
+				default:
+					res.Unknown++
+				}
+				mu.Unlock()
+			}
+		}()
+	}
+	wg.Wait()
 	return res
 }
